@@ -3093,3 +3093,19 @@ mod tests {
         }
     }
 }
+
+// ========================================================================
+// Verification hooks (only with `--cfg crrl_verif`).
+
+#[cfg(crrl_verif)]
+impl Point {
+    /// Raw internal coordinates (X, Y, Z).
+    pub fn verif_coords(&self) -> [GF448; 3] {
+        [self.X, self.Y, self.Z]
+    }
+
+    /// Rebuild a point from raw internal coordinates (not validated).
+    pub fn verif_from_coords(c: &[GF448; 3]) -> Self {
+        Self { X: c[0], Y: c[1], Z: c[2] }
+    }
+}
